@@ -235,8 +235,13 @@ func replayC18(ws *Workspace, f *Finding) (*ReplayOutcome, error) {
 	anyFault := fault("open") || fault("read") || fault("parse") || fault("compile") || fault("openfile") || fault("flush")
 	written := stdout.String()
 	if outPath != "" {
-		data, _ := os.ReadFile(filepath.Join(dir, outPath))
-		written = string(data)
+		written = ""
+		// only a regular file is read back (the flush fault makes the destination /dev/full,
+		// which reads as an endless stream of zeros)
+		if st, err := os.Stat(filepath.Join(dir, outPath)); err == nil && st.Mode().IsRegular() {
+			data, _ := os.ReadFile(filepath.Join(dir, outPath))
+			written = string(data)
+		}
 	}
 	complete := strings.Contains(written, "func (p *T[U]) Init(") && strings.HasSuffix(strings.TrimSpace(written), "}") &&
 		!strings.Contains(written, "// stale line of an older, longer output")
